@@ -78,10 +78,11 @@ BUILTIN_NAMES = {"None": None, "True": True, "False": False}
 
 
 class Interp:
-    def __init__(self, globals_: dict, classes: dict | None = None, ignore_calls=("LOGGER.",)):
+    def __init__(self, globals_: dict, classes: dict | None = None, ignore_calls=("LOGGER.",), method_resolver=None):
         self.globals = dict(globals_)
         self.classes = dict(classes or {})  # name -> callable() -> Obj
         self.ignore_calls = ignore_calls
+        self.method_resolver = method_resolver  # (class name, method name) -> (FunctionDef, is_static) | None
         self.steps = 0
 
     # -- expressions ------------------------------------------------------------------------------
@@ -173,6 +174,8 @@ class Interp:
                 return l - r
             if isinstance(e.op, ast.Mult):
                 return l * r
+            if isinstance(e.op, ast.Pow) and isinstance(l, int) and isinstance(r, int) and 0 <= r <= 64:
+                return l ** r
             raise Unsupported("binary operator")
         if isinstance(e, ast.IfExp):
             return self.ev(e.body, env) if self.ev(e.test, env) else self.ev(e.orelse, env)
@@ -202,6 +205,8 @@ class Interp:
                     r = left >= right
                 else:
                     raise Unsupported("comparison")
+                if len(e.ops) == 1:
+                    return r  # whatever the operands' rich comparison gives (a stand-in may record it)
                 if not r:
                     return False
                 left = right
@@ -259,7 +264,7 @@ class Interp:
                 return self.classes[n](*args, **kw)
             if n in env and callable(env[n]):
                 return env[n](*args)
-            simple = {"len": len, "bool": bool, "int": int, "list": list, "tuple": tuple, "dict": dict, "set": set, "str": lambda x="": "<str>" if not isinstance(x, str) else x, "enumerate": lambda x, s=0: list(enumerate(x, s)), "zip": lambda *a: list(zip(*a)), "range": range, "any": any, "all": all, "min": min, "max": max, "repr": lambda x: "<repr>", "UID": lambda x: x}
+            simple = {"len": len, "bool": bool, "int": int, "list": list, "tuple": tuple, "dict": dict, "set": set, "str": lambda x="": getattr(x, "_minipy_str", "<str>") if not isinstance(x, str) else x, "enumerate": lambda x, s=0: list(enumerate(x, s)), "zip": lambda *a: list(zip(*a)), "range": range, "any": any, "all": all, "min": min, "max": max, "repr": lambda x: "<repr>", "UID": lambda x: x}
             if n in simple:
                 return simple[n](*args, **kw)
             if n == "sorted":
@@ -286,12 +291,21 @@ class Interp:
                 return list(r) if m in ("items", "values", "keys") else r
             if isinstance(base, set) and m in ("add", "discard", "remove"):
                 return getattr(base, m)(*args)
-            if isinstance(base, str) and m in ("strip", "lower", "upper"):
+            if isinstance(base, str) and m in ("strip", "lower", "upper", "startswith", "endswith", "split", "replace", "lstrip", "rstrip", "join", "isdigit", "find", "count"):
                 return getattr(base, m)(*args)
             if isinstance(base, Obj):
                 meth = base.attrs.get("@" + m)
                 if meth is not None:
                     return meth(base, *args, **kw)
+                if self.method_resolver is not None:
+                    r = self.method_resolver(base.cls, m)
+                    if r is not None:
+                        fn, is_static = r
+                        params = [a.arg for a in fn.args.args]
+                        vals = list(args) if is_static else [base] + list(args)
+                        bound = dict(zip(params, vals))
+                        bound.update(kw)
+                        return self.call_function(fn, bound)
             raise Unsupported(f"method {m} of a {type(base).__name__}")
         raise Unsupported(f"call {fn[:40]}")
 
